@@ -31,11 +31,13 @@ Serving(i, rl) == CHOOSE r \in 1 .. Len(restarts) : i \in Its(r, rl) /\ \A q \in
 Init == /\ layout \in Layouts /\ nlev \in NLevels
         /\ \E lo \in Starts, n \in Lengths, e \in Strides :
               lo % e = 0 /\ restarts = <<[lo |-> lo, hi |-> lo + n * e, every |-> e]>>
-(* a new restart begins at or before the end of the previous one (never before its beginning) *)
+(* a new restart begins at or before the end of the previous one (never before its beginning) and ends anywhere *)
 RunRestart == /\ Len(restarts) < MaxRestarts
               /\ \E lo \in Starts, n \in Lengths, e \in Strides :
                     LET prev == restarts[Len(restarts)] IN
-                    /\ lo % e = 0 /\ lo >= prev.lo /\ lo <= prev.hi + e /\ lo + n * e > prev.hi
+                    \* the new restart may stop before the previous one did (a short re-run from an earlier checkpoint): its
+                    \* range then lies inside the previous one's, which still serves the iterations after it
+                    /\ lo % e = 0 /\ lo >= prev.lo /\ lo <= prev.hi + e
                     /\ restarts' = Append(restarts, [lo |-> lo, hi |-> lo + n * e, every |-> e])
               /\ UNCHANGED <<layout, nlev>>
 Next == RunRestart
